@@ -377,7 +377,7 @@ class ConnectionState:
     async def do_logout(cls, cmd: LogoutCommand) -> NoReturn:
         raise CloseConnection()
 
-    async def receive_updates(self, cmd: IdleCommand, done: Event) \
+    async def receive_updates(self, cmd: IdleCommand, done: Event | None) \
             -> Iterable[UntaggedResponse]:
         selected = await self.session.check_mailbox(
             self.selected, wait_on=done)
